@@ -559,7 +559,8 @@ def run(ctx: common.Ctx) -> None:
 
     with common.workdir("C17") as wd:
         env = common.base_env(VERIF_POOL_ROOT=wd)
-        with Pool(env=env) as pool:
+        # in-process mypy runs leak a few MB each: recycle workers often (a task is 10-60 s, a restart ~1 s)
+        with Pool(env=env, recycle_after=12) as pool:
             (t0, r0), = pool.map([{"fn": T + "table", "args": {}}], timeout=120)
             if not r0.get("ok"):
                 raise RuntimeError(f"cannot read the option table from the live code: {r0}")
